@@ -177,6 +177,15 @@ theorem c04_ss_legacy_server_single (C : Crypto) (hC : C.Lawful) (ctx : Ctx) (hk
   · show (evItems (feedAll _ _ _).2).head?.map Item.addr = _
     rw [hi']; rfl
 
+/-- **WebSocket messages instead of socket reads.**  The model of `WebSocketFramed::poll_next` after one binary
+message (`wsMsg`: append the payload to what was kept, decode every complete frame, not only the first) is
+literally the model of `FramedRead` after one read (`frFeed`).  Hence every `…_framed` theorem of C04 (this
+file, `C04Trojan`, and the unit-level ones through the bridging lemmas) holds verbatim with "one WebSocket
+message per piece".  That `wsMsg` is what the hand-written `WebSocketFramed` does is decided by the
+correspondence run (real `WebSocketFramed` over an in-process WebSocket connection), not by this theorem. -/
+theorem c04_ws_message_is_a_read {σ : Type} (decode : σ → Bytes → Call σ) (f : FrSt σ) (msg : Bytes) :
+    wsMsg decode f msg = frFeed decode f msg := rfl
+
 /-! ## non-vacuity: concrete sessions with the toy crypto, evaluated by the kernel -/
 
 namespace Demo
